@@ -87,10 +87,15 @@ func c33GenPlan(t *rapid.T) c33Plan {
 	}
 
 	if p.Mode == "batch" {
-		p.W = int64(rapid.IntRange(1, 50).Draw(t, "limit"))
-
 		if p.N < 1 {
 			p.N = 1
+		}
+
+		// half of the batch plans certainly take the several-batches path (limit < size) when the size allows it
+		if p.N > 1 && rapid.Bool().Draw(t, "severalBatches") {
+			p.W = int64(rapid.IntRange(1, min(p.N-1, 50)).Draw(t, "limit"))
+		} else {
+			p.W = int64(rapid.IntRange(1, 50).Draw(t, "limit"))
 		}
 	}
 
@@ -196,6 +201,14 @@ type c33Exec struct {
 	startSeq []atomic.Int64
 	endSeq   []atomic.Int64
 
+	// "the first job error cancels the remaining work": what every job was handed as its context and what it saw of it
+	ctxs         []atomic.Pointer[context.Context] // the context job i was called with
+	afterReturn  atomic.Bool                       // set by the harness right after the call under test came back
+	liveLate     []atomic.Bool                     // job i started after the call had come back and its context was not done
+	wokenByCtx   []atomic.Bool                     // job i (follower) saw its context done
+	cause        []atomic.Pointer[error]           // context.Cause of it at that moment
+	releasedLive []atomic.Bool                     // job i (follower) was let go by the harness (after the return) with its context still not done
+
 	inflightAtFail atomic.Int64 // max number of started-but-unfinished jobs seen when a job reported an error
 	cancel         context.CancelFunc
 	cancelled      atomic.Bool
@@ -210,6 +223,8 @@ func c33NewExec(p c33Plan) *c33Exec {
 		p: p, errs: make([]error, p.N), ran: make([]atomic.Int32, p.N), fin: make([]atomic.Int32, p.N),
 		retErr: make([]atomic.Bool, p.N), sawDone: make([]atomic.Bool, p.N), lastArg: make([]atomic.Int64, p.N),
 		startSeq: make([]atomic.Int64, p.N), endSeq: make([]atomic.Int64, p.N),
+		ctxs: make([]atomic.Pointer[context.Context], p.N), liveLate: make([]atomic.Bool, p.N), wokenByCtx: make([]atomic.Bool, p.N),
+		cause: make([]atomic.Pointer[error], p.N), releasedLive: make([]atomic.Bool, p.N),
 		release: make(chan struct{}), late: make(chan struct{}),
 		prefErr: errors.New("c33: injected preparation error"),
 	}
@@ -228,8 +243,14 @@ func (x *c33Exec) job(ctx context.Context, i int) (err error) {
 	x.ran[i].Add(1)
 	x.startSeq[i].Store(x.seq.Add(1))
 
-	if ctx.Err() != nil {
+	x.ctxs[i].Store(&ctx)
+
+	// order matters: the flag is read first, so "flag set and context live" means the context was live after the return
+	switch late := x.afterReturn.Load(); {
+	case ctx.Err() != nil:
 		x.sawDone[i].Store(true)
+	case late:
+		x.liveLate[i].Store(true)
 	}
 
 	defer func() {
@@ -260,10 +281,20 @@ func (x *c33Exec) job(ctx context.Context, i int) (err error) {
 	case c33Follower:
 		select {
 		case <-ctx.Done():
-			return x.errs[i]
 		case <-x.release:
-			return nil
+			// released by the harness, i.e. after the call under test came back (or by the watchdog)
+			if ctx.Err() == nil {
+				x.releasedLive[i].Store(true)
+
+				return nil
+			}
 		}
+
+		cause := context.Cause(ctx)
+		x.cause[i].Store(&cause)
+		x.wokenByCtx[i].Store(true)
+
+		return x.errs[i]
 	case c33Cancel:
 		x.cancelled.Store(true)
 		x.cancel()
@@ -402,7 +433,7 @@ func TestC33(t *testing.T) {
 	defer r.Finish()
 	r.Rule("plans: mode {BaseJobWorker / ErrCallbackJobWorker with explicit NewJob/Done/Wait, RunJobWorker, RunErrCallbackJobWorker, BatchWork} x worker size 1..16 / batch limit 1..50 " +
 		"x 0..200 jobs of kinds {ok, fail with a distinct error, follower (fails only after the worker context was cancelled), external cancel, late (still running when Wait starts)} " +
-		"with drawn yields, Done() before the last submission, the submitter stopping the worker (Cancel / Close / parent context) right after a NewJob call returned, failing batch preparation. " +
+		"with drawn yields, batch limits below the size in half of the batch plans (several batches, failing job with followers / late jobs in the SAME batch), Done() before the last submission, the submitter stopping the worker (Cancel / Close / parent context) right after a NewJob call returned, failing batch preparation. " +
 		"non-trivial: >= 2 batches, or a failing job that reported its error while other jobs were in flight / still to be submitted, or a stop right after an accepted job; distinct by (mode, sizes, stop, kind string)")
 	r.Floor(100)
 	r.Assume("'waits for all jobs' and 'finished at return' are judged on the no-error path",
@@ -410,7 +441,10 @@ func TestC33(t *testing.T) {
 			"once no goroutine started since the beginning of the case is left (goroutine census; the harness's own goroutines are joined first), so 'never ran' is a fact and not a timeout; acceptance is observable only where the harness calls NewJob itself",
 		"the first error is demanded exactly only where the order is determined: worker size 1, or one failing job whose followers fail only after observing the cancellation; otherwise membership in the set of errors jobs actually returned",
 		"error-callback workers are documented to ignore job errors: nil is returned (context.Canceled only after a cancellation from outside), and the callback receives exactly the errors jobs returned, each once",
-		"external cancellation and a submitter that stops the worker: run counts, error membership and the error callback are judged, not which error Wait returns")
+		"external cancellation and a submitter that stops the worker: run counts, error membership and the error callback are judged, not which error Wait returns",
+		"'the first job error cancels the remaining work': once a worker that reports job errors (BaseJobWorker.Wait, RunJobWorker, BatchWork on either path) has returned an error, every job of it that had not finished "+
+			"(running, or started afterwards) holds a context that is done - every job records the context it was called with; that such jobs have already left is not demanded (Wait does not wait on the error path)",
+		"a job that waited on its context sees the first job error as context.Cause where the plan determines that error (one failing job, or worker size / limit 1), else the error of one of the failing jobs; not judged with cancellations from outside")
 
 	r.Checks(1500, 100000)
 	r.ShrinkTime(20 * time.Second)
@@ -592,14 +626,22 @@ func TestC33(t *testing.T) {
 		}
 
 		// ---- snapshot at return
+		x.afterReturn.Store(true)
 		returnedOnce.Do(func() { close(returned) })
 
 		finAtReturn := make([]int32, p.N)
 		errAtReturn := make([]bool, p.N)
+		liveAtReturn := make([]bool, p.N) // job i had been started, had not finished and the context it was given was not done
 
 		for i := range finAtReturn {
 			errAtReturn[i] = x.retErr[i].Load()
 			finAtReturn[i] = x.fin[i].Load()
+
+			// fin is read first and a context never comes back to life: unfinished now => unfinished at the return,
+			// live now => live at the return
+			if c := x.ctxs[i].Load(); finAtReturn[i] == 0 && c != nil && (*c).Err() == nil {
+				liveAtReturn[i] = true
+			}
 		}
 
 		watchdog := x.watchdog.Load()
@@ -625,6 +667,12 @@ func TestC33(t *testing.T) {
 		}
 
 		idx, isPref, isCanceled := x.matches(callErr)
+
+		// the job error that cancels the work where the plan determines it (set per mode below; nil = not determined)
+		var (
+			firstErr      error
+			firstErrExact bool
+		)
 
 		// the returned error must be an error a job (or the preparation) actually returned before the call came back
 		checkMembership := func() {
@@ -716,6 +764,10 @@ func TestC33(t *testing.T) {
 				if p.Kinds[i] == c33Fail {
 					nfailReach++
 				}
+			}
+
+			if !hasCancel && expFail >= 0 {
+				firstErr, firstErrExact = x.errs[expFail], p.W == 1 || nfailReach == 1
 			}
 
 			switch {
@@ -824,6 +876,10 @@ func TestC33(t *testing.T) {
 				}
 			}
 
+			if !hasCancel && !prefHit && wantErr != nil {
+				firstErr, firstErrExact = wantErr, exact
+			}
+
 			switch {
 			case wantErr == nil:
 				if callErr != nil {
@@ -923,6 +979,76 @@ func TestC33(t *testing.T) {
 
 				if accepted[i] && n != 1 {
 					r.Violation(rt, "accepted-job-not-run", "%s: NewJob returned nil for job %d but the job ran %d times (want exactly once; no goroutine is left that could still run it)", desc, i, n)
+				}
+			}
+		}
+
+		// "the first job error cancels the remaining work": a worker that reports job errors has come back with an error.
+		// Whatever job of it had not finished by then - running (for instance a follower parked on its context, a late job),
+		// or accepted and started only afterwards - must hold a context that is done; a job cannot learn in any other way
+		// that its work is no longer wanted. Whether such a job has already left is NOT demanded (Wait does not wait for
+		// the jobs on the error path). Everything below is final: no goroutine of the case is left.
+		woken, wokenSameBatch := 0, 0
+
+		if callErr != nil && !p.errMode() {
+			for i := 0; i < p.N; i++ {
+				var how string
+
+				switch {
+				case liveAtReturn[i]:
+					how = "was running when the call came back and its context was not done"
+				case x.releasedLive[i].Load():
+					how = "waited for its context until the harness let it go after the call had come back; the context was still not done"
+				case x.liveLate[i].Load():
+					how = "was started after the call had come back, with a context that was not done"
+				default:
+					continue
+				}
+
+				where := ""
+				if p.Mode == "batch" {
+					where = fmt.Sprintf(" (batch %d of %d, limit %d)", batchOf(i), (p.N+limit-1)/limit, limit)
+				}
+
+				r.Violation(rt, "remaining-work-not-cancelled-after-error", "%s: the call returned %q but job %d [%s]%s %s", desc, callErr, i, c33KindNames[p.Kinds[i]], where, how)
+			}
+		}
+
+		// the cancellation the waiting jobs observe is the one made by the first job error (cancel cause), where the plan
+		// determines which error that is; with several independent failing jobs it is one of theirs
+		for i := 0; i < p.N; i++ {
+			if !x.wokenByCtx[i].Load() {
+				continue
+			}
+
+			woken++
+
+			if p.Mode == "batch" && firstErr != nil && len(idx) > 0 && batchOf(idx[0]) == batchOf(i) {
+				wokenSameBatch++
+			}
+
+			if firstErr == nil || p.errMode() {
+				continue
+			}
+
+			cause := *x.cause[i].Load()
+
+			switch {
+			case firstErrExact:
+				if !errors.Is(cause, firstErr) {
+					r.Violation(rt, "cancel-cause-not-first-error", "%s: job %d waited for its context; it was cancelled with cause %q, want the first job error %q", desc, i, fmt.Sprint(cause), firstErr)
+				}
+			default:
+				found := false
+
+				for j := range x.errs {
+					if p.Kinds[j] == c33Fail && errors.Is(cause, x.errs[j]) {
+						found = true
+					}
+				}
+
+				if !found {
+					r.Violation(rt, "cancel-cause-not-first-error", "%s: job %d waited for its context; it was cancelled with cause %q, which is not the error of any failing job", desc, i, fmt.Sprint(cause))
 				}
 			}
 		}
@@ -1029,6 +1155,14 @@ func TestC33(t *testing.T) {
 
 		if x.inflightAtFail.Load() >= 2 {
 			classes = append(classes, "error-with-others-in-flight")
+		}
+
+		if woken > 0 {
+			classes = append(classes, "job-waiting-on-context-saw-cancellation")
+		}
+
+		if wokenSameBatch > 0 && nb >= 2 {
+			classes = append(classes, "batches:>=2+sibling-of-failing-job-waiting-on-context")
 		}
 
 		if callErr != nil {
